@@ -1182,3 +1182,16 @@ def slice_get(ex, args, m):
         i = ex.concretize(i, 0, n - 1)
     elif not (0 <= i < n): return none()
     return some(Ref(s.vec.items, s.lo + i))
+
+
+@model(r'<&*(?:std::ops::)?Range<.*> as PartialEq>::(eq|ne)')
+def range_eq(ex, args, m):
+    r = val_eq(ex, args[0], args[1])
+    return r if m.group(1) == 'eq' else simp(b_not(r))
+
+
+@model(r'<&*(?:std::boxed::)?Box<.*> as PartialEq>::(eq|ne)')
+def box_eq(ex, args, m):
+    a = deref(args[0]); b = deref(args[1])
+    r = val_eq_dispatch(ex, a.f[0] if isinstance(a, BoxV) else a, b.f[0] if isinstance(b, BoxV) else b)
+    return r if m.group(1) == 'eq' else simp(b_not(r))
